@@ -11,8 +11,9 @@ checks = [pid]
 for a in sys.argv:
     if a.startswith("--checks="):
         checks = a.split("=", 1)[1].split(",")
-src = f"/tmp/seeded_out/{pid}"
-wt = f"/tmp/wt_{pid}"
+rnd = next((a.split("=", 1)[1] for a in sys.argv if a.startswith("--round=")), "")
+src = f"/tmp/seeded_out{rnd}/{pid}"
+wt = f"/tmp/wt{rnd}_{pid}"
 patch, demo, meta = f"{src}/patch{n}.diff", f"{src}/demo{n}.py", f"{src}/meta{n}.json"
 env = dict(os.environ, PYTHONPATH=wt)
 log = []
@@ -60,7 +61,8 @@ if confirmed:
             print(c, q.returncode, lines[-3:])
     finally:
         subprocess.run(f"git -C {wt} checkout -- . && /venv/bin/python /verif/harness/extract.py > /dev/null", shell=True)
-dest = f"/verif/seeded/{pid}-{n or '1'}"
+dest_n = next((a.split("=", 1)[1] for a in sys.argv if a.startswith("--dest=")), n or "1")
+dest = f"/verif/seeded/{pid}-{dest_n}"
 if confirmed:
     os.makedirs(dest, exist_ok=True)
     shutil.copy(patch, f"{dest}/patch.diff")
